@@ -522,6 +522,9 @@ class Collada(object):
             _syncChildren(node, [o.xmlnode for o in arr])
 
         scenenode = self.xmlnode.find(self.tag('scene'))
+        if scenenode is None:
+            scenenode = E.scene()
+            self.xmlnode.getroot().append(scenenode)
         scenenode.clear()
         if self.scene is not None:
             sceneid = self.scene.id
